@@ -24,3 +24,77 @@ func init() {
 	})
 	techniques["C16"] = "SQL statement reconstruction from SSA; value-origin check of the store binding"
 }
+
+func init() {
+	register("C12", "Writes are atomic and honour on_duplicate/on_missing", func(e *Engine, r *Reporter) {
+		ruleTxnDiscipline(e, r)
+	})
+	register("C15", "The changelog faithfully records tuple history", func(e *Engine, r *Reporter) {
+		ruleAppendOnly(e, r, "changelog", "changelog-append-only", "the changelog table is only ever SELECTed or INSERTed, and INSERTs run on the write transaction", 6, true)
+	})
+	register("C17", "Models are validated, immutable and resolved to the latest", func(e *Engine, r *Reporter) {
+		ruleAppendOnly(e, r, "authorization_model", "model-immutable-sql", "no UPDATE/DELETE statement on authorization_model exists in any SQL backend", 8, false)
+	})
+	register("C31", "Assertions are stored and returned verbatim per store and model", func(e *Engine, r *Reporter) {
+		ruleAssertionsKeyed(e, r)
+	})
+}
+
+func init() {
+	register("C10", "Higher-consistency requests are never stale", func(e *Engine, r *Reporter) {
+		ruleConsistencyBypass(e, r)
+		ruleBypassDelegates(e, r)
+		ruleConsistencyForwarded(e, r)
+		ruleConsistencyInLiterals(e, r)
+		rulePgPool(e, r)
+	})
+}
+
+func init() {
+	register("C26", "API access control allows exactly what the control store grants", func(e *Engine, r *Reporter) {
+		ruleAuthorizeBeforeData(e, r)
+		ruleFailClosed(e, r)
+		ruleSkipAuthzOwner(e, r)
+		ruleListStoresFilter(e, r)
+		r.Rule("apimethod-total", "Authorizer.getRelation handles every apimethod.APIMethod constant; unknown methods are an error", 1)
+		for _, s := range e.valueSwitches() {
+			if s.Subject == "APIMethod" {
+				ok, d := judgeSwitch(s, nil)
+				r.Check(ok && len(s.Missing) == 0, s.key(), e.pos(s.Pos), d, d)
+			}
+		}
+	})
+}
+
+func init() {
+	describe("C10", meta{
+		Decides:    "(1) every read of an answer cache (InMemoryCache.Get outside the frozen non-answer caches, the shared-iterator map) lies behind `preference != HIGHER_CONSISTENCY` in its function or at every static call site up the chain; (2) the three caching reader wrappers forward the caller's filter and options unchanged to the wrapped reader; (3) every options value passed to a tuple reader from the engines, and every params/request literal with a Consistency field, carries a non-constant consistency; (4) postgres reads pick their pool via getPgxPool(options.Consistency.Preference) and the replica is returned only when the preference is not HIGHER_CONSISTENCY.",
+		NotDecided: "staleness of the database itself or of replicas for non-higher requests; run-time interleavings of writes and cache fills.",
+	})
+	techniques["C10"] = "cut-reachability on SSA (must-pass-through of the consistency test) up the static call chain; option-literal coverage"
+	describe("C12", meta{
+		Decides:    "SQL transaction typestate of every function that begins a transaction (sqlite write, sqlcommon.Write used by mysql, postgres write, mysql CreateStore): rollback deferred before any statement; every statement and every statement-running helper runs on the transaction, never on the bare handle; statement errors are consumed; a success return is reachable only through Commit()==nil or before any statement ran. Exhaustive, fail-closed switches over on_duplicate/on_missing options.",
+		NotDecided: "crash atomicity itself (delegated to the database's transaction guarantee), row-level races between writers, memory backend write atomicity beyond the lock discipline.",
+	})
+	techniques["C12"] = "typestate/must-pass-through over SSA + SQL statement reconstruction"
+	describe("C15", meta{
+		Decides:    "the changelog table is append-only in every SQL backend (only SELECT and INSERT statements exist) and every INSERT runs on the write transaction.",
+		NotDecided: "replay equality, horizon arithmetic, ordering of ULIDs.",
+	})
+	techniques["C15"] = "SQL statement matrix (verb x table) reconstructed from SSA"
+	describe("C17", meta{
+		Decides:    "no UPDATE or DELETE statement on authorization_model exists in any SQL backend (models are immutable once inserted); model writes are store-scoped (C16).",
+		NotDecided: "validation completeness, identifier monotonicity (clock/entropy), latest-model resolution under concurrency.",
+	})
+	techniques["C17"] = "SQL statement matrix (verb x table) reconstructed from SSA"
+	describe("C26", meta{
+		Decides:    "(1) in each of the RPC handlers of *server.Server (native and AuthZEN) every call that reaches data — commands.*, the datastore, v2Check, model resolution except the frozen pair Write/ActionSearch — is passed only after checkAuthz/checkWriteAuthz/checkCreateStoreAuthz/getAccessibleStores returned nil, called with the request's own store id and the handler's own API method; (2) the authorisation helpers and the Authorizer are fail-closed: nil only behind a positive decision, no error of a consulted layer can reach a nil return; (3) ContextWithSkipAuthzCheck is called only inside internal/authz; (4) ListStores never reaches the query with a non-nil empty authorised set; (5) getRelation covers every APIMethod constant.",
+		NotDecided: "that the access-control store's own model grants the intended relations; module computation for writes.",
+	})
+	techniques["C26"] = "must-pass-through (cut reachability on SSA) per RPC handler; fail-closed return analysis; who-may-call"
+	describe("C31", meta{
+		Decides:    "every assertion statement in sqlite/mysql/postgres is keyed by both store and authorization_model_id bound to the method's parameters, writes are upserts on that pair, and the memory backend indexes assertions by a key built from both parameters.",
+		NotDecided: "byte-for-byte equality across marshal round trips.",
+	})
+	techniques["C31"] = "SQL statement reconstruction from SSA; map-key origin check"
+}
